@@ -310,16 +310,33 @@ pub fn base_env() -> Env {
     vars.insert("e", ("".into(), None));
     vars.insert("n", ("x".into(), Some(E::Var("x"))));
     vars.insert("z", ("x+1".into(), Some(E::Bin("+", Box::new(E::Var("x")), Box::new(E::Lit("1", 1))))));
+    // values that are numbers in another notation: the value of a variable is evaluated as an expression
+    vars.insert("o", ("010".into(), Some(E::Lit("010", 8))));
+    vars.insert("h", ("0x1F".into(), Some(E::Lit("0x1F", 31))));
+    vars.insert("w", (" 7 ".into(), Some(E::Lit("7", 7))));
+    vars.insert("q", ("2#101".into(), Some(E::Lit("2#101", 5))));
     // u stays unset
     Env { vars }
 }
 
-pub const SETUP: &str = "x=5; y=3; e=; unset u; n=x; z=x+1; ";
-pub const DUMP: &str = "echo \"v=$x|$y|$e|${u-U}|$n|$z\"";
+pub const SETUP: &str = "x=5; y=3; e=; unset u; n=x; z=x+1; o=010; h=0x1F; w=' 7 '; q=2#101; ";
+pub const DUMP: &str = "echo \"v=$x|$y|$e|${u-U}|$n|$z|$o|$h|$w|$q\"";
 
 pub fn model_dump(env: &Env) -> String {
     let g = |n: &str| env.vars.get(n).map(|v| v.0.clone());
-    format!("v={}|{}|{}|{}|{}|{}", g("x").unwrap_or_default(), g("y").unwrap_or_default(), g("e").unwrap_or_default(), g("u").unwrap_or_else(|| "U".into()), g("n").unwrap_or_default(), g("z").unwrap_or_default())
+    format!(
+        "v={}|{}|{}|{}|{}|{}|{}|{}|{}|{}",
+        g("x").unwrap_or_default(),
+        g("y").unwrap_or_default(),
+        g("e").unwrap_or_default(),
+        g("u").unwrap_or_else(|| "U".into()),
+        g("n").unwrap_or_default(),
+        g("z").unwrap_or_default(),
+        g("o").unwrap_or_default(),
+        g("h").unwrap_or_default(),
+        g("w").unwrap_or_default(),
+        g("q").unwrap_or_default()
+    )
 }
 
 pub fn operands(n: usize) -> Vec<E> {
@@ -343,6 +360,10 @@ pub fn operands(n: usize) -> Vec<E> {
         E::Lit("16#ff", 255),
         E::Lit("64#@_", 4031),
         E::Var("e"),
+        E::Var("o"),
+        E::Var("h"),
+        E::Var("w"),
+        E::Var("q"),
         E::Var("y"),
         E::Lit("2#101", 5),
         E::Lit("36#Z", 35),
@@ -352,7 +373,7 @@ pub fn operands(n: usize) -> Vec<E> {
     all.into_iter().take(n).collect()
 }
 
-const INC_VARS: &[&str] = &["x", "u", "n"];
+const INC_VARS: &[&str] = &["x", "u", "n", "o"];
 
 /// All trees of depth <= 1 over `ops`.
 pub fn depth1(ops: &[E]) -> Vec<E> {
@@ -520,7 +541,7 @@ fn shape(out: &str) -> String {
 pub fn run(tier: Tier, _replay: Option<Value>) -> ! {
     let mut rep = Report::new("C07", tier, "exploration");
     // ---- the enumerated set
-    let ops_wide = operands(tier.pick(20, 24));
+    let ops_wide = operands(tier.pick(23, 28));
     let mut trees = depth1(&ops_wide);
     let leaf = operands(tier.pick(5, 8));
     trees.extend(depth2(&leaf, tier == Tier::Thorough));
